@@ -209,10 +209,10 @@ def subchecks(tier):
          "slot_capacitated": 0.4, "zero_servers": 0.05, "baulking": 0.1, "exact": 1.0}
     grid = S.Profile(ALLOWED + ["exact"], weights=w, required=("exact",), numeric="decgrid", max_nodes=3, max_classes=3, plans=("max_time",),
                      horizon=(6.0, 20.0), budget=800, resumptions=(1, 1), load="heavy",
-                     excluded=common.KNOWN_EXCLUSIONS + ("slot_zero_first_arrival",))
+                     excluded=common.EXCL["C20"])
     cont = S.Profile([f for f in ALLOWED if f != "zero_service"] + ["exact"], weights=w, required=("exact",), numeric="cont", max_nodes=3, max_classes=3,
                      plans=("max_time",), horizon=(5.0, 14.0), budget=800, resumptions=(1, 1),
-                     excluded=common.KNOWN_EXCLUSIONS + ("slot_zero_first_arrival", "exact_low_precision"))
+                     excluded=common.EXCL["C20"] + ("exact_low_precision",))
     return [
         SubCheck("scaled", scaled_execute, strategy=S.netspec(grid), n={"quick": 4800, "thorough": 30000}, kind="metamorphic",
                  rule="exact run on a 0.1 grid vs float run of the x10-scaled (integer) spec"),
